@@ -303,3 +303,57 @@ func codecFuncOf(outer *ssa.Function, nParams, nResults int) *ssa.Function {
 // hRW / hReq: the ResponseWriter and Request parameters of a handler function (literal or ServeHTTP method).
 func hRW(f *ssa.Function) *ssa.Parameter  { return f.Params[len(f.Params)-2] }
 func hReq(f *ssa.Function) *ssa.Parameter { return f.Params[len(f.Params)-1] }
+
+// literalElemsByIndex returns the elements stored into a local array / slice literal, by constant index.
+func literalElemsByIndex(al *ssa.Alloc) map[int64]ssa.Value {
+	out := map[int64]ssa.Value{}
+	for _, r := range *al.Referrers() {
+		ia, ok := r.(*ssa.IndexAddr)
+		if !ok {
+			continue
+		}
+		k, isK := constInt(ia.Index)
+		if !isK {
+			continue
+		}
+		for _, rr := range *ia.Referrers() {
+			if st, ok := rr.(*ssa.Store); ok && st.Addr == ssa.Value(ia) {
+				out[k] = st.Val
+			}
+		}
+	}
+	return out
+}
+
+// candidateTableOrder looks, in f, for a local array or slice literal that lists both a value accepted by first and
+// one accepted by second (an ordered table of candidates). found: such a table exists; ok: in every such table the
+// `first` element has the smaller index.
+func candidateTableOrder(f *ssa.Function, first, second VPred) (found, ok bool) {
+	ok = true
+	for _, in := range instrs(f) {
+		al, isAl := in.(*ssa.Alloc)
+		if !isAl {
+			continue
+		}
+		if _, isArr := al.Type().Underlying().(*types.Pointer).Elem().Underlying().(*types.Array); !isArr {
+			continue
+		}
+		elems := literalElemsByIndex(al)
+		fi, si := int64(-1), int64(-1)
+		for k, v := range elems {
+			if first(v) {
+				fi = k
+			}
+			if second(v) {
+				si = k
+			}
+		}
+		if fi >= 0 && si >= 0 {
+			found = true
+			if fi > si {
+				ok = false
+			}
+		}
+	}
+	return
+}
